@@ -605,3 +605,109 @@ Proof.
   apply (utf8_char _ n); [now rewrite utf8_char_len_lower|].
   unfold ascii_lower in *. now rewrite skipn_map.
 Qed.
+
+(* ------------------------------------------------------------------------------------------------ *)
+(* Part 1b: lists of fields joined by a delimiter                                                   *)
+(* ------------------------------------------------------------------------------------------------ *)
+Fixpoint join_byte (d : N) (l : list bytes) : bytes :=
+  match l with
+  | [] => []
+  | [x] => x
+  | x :: l' => x ++ d :: join_byte d l'
+  end.
+
+Lemma join_byte_cons d x l : l <> [] -> join_byte d (x :: l) = x ++ d :: join_byte d l.
+Proof. destruct l; [contradiction | reflexivity]. Qed.
+
+Lemma split_on_join d l : l <> [] -> Forall (fun x => nob d x = true) l -> split_on d (join_byte d l) = l.
+Proof.
+  induction l as [|x l IH]; intros Hne Hl; [contradiction|].
+  inversion Hl as [|? ? Hx Hl']; subst. destruct l as [|y l].
+  - cbn [join_byte]. now apply split_on_nob.
+  - rewrite join_byte_cons by discriminate. rewrite split_on_app by assumption. f_equal. apply IH; [discriminate | assumption].
+Qed.
+
+(* ---- trim: one more single-byte white space in front changes nothing ---- *)
+Lemma trim_start_ws1_cons b l : ws1 b = true -> trim_start (b :: l) = trim_start l.
+Proof.
+  intro H. unfold trim_start. cbn [length trim_start_fuel]. now rewrite (ws_prefix_len_ws1 _ _ H).
+Qed.
+
+Lemma trim_ws1_cons b l : ws1 b = true -> trim (b :: l) = trim l.
+Proof. intro H. unfold trim. now rewrite trim_start_ws1_cons. Qed.
+
+Lemma trim_ws1_app pad l : forallb ws1 pad = true -> trim (pad ++ l) = trim l.
+Proof.
+  induction pad as [|b pad IH]; intro H; [reflexivity|]. cbn [forallb] in H. apply andb_true_iff in H as [Hb H].
+  cbn [app]. rewrite trim_ws1_cons by assumption. now apply IH.
+Qed.
+
+(* ---- trim of a padded text ---- *)
+Ltac b2p :=
+  repeat match goal with
+  | H : (_ && _) = true |- _ => apply andb_true_iff in H; destruct H
+  | H : (_ || _) = true |- _ => apply orb_true_iff in H; destruct H
+  | H : (_ =? _) = true |- _ => apply N.eqb_eq in H
+  | H : (_ <=? _) = true |- _ => apply N.leb_le in H
+  | H : (_ <? _) = true |- _ => apply N.ltb_lt in H
+  end.
+
+Lemma ws1_small c : ws1 c = true -> c <= 32.
+Proof. unfold ws1. intro H. b2p; lia. Qed.
+
+(* trailing single-byte white space never completes a multi-byte white-space character *)
+Lemma ws_prefix_len_app_ws1 e pad : e <> [] -> ws_prefix_len e = 0%nat -> forallb ws1 pad = true ->
+  ws_prefix_len (e ++ pad) = 0%nat.
+Proof.
+  intros Hne He Hp. rewrite ws_prefix_len_eq in *. destruct e as [|b r]; [contradiction|].
+  cbn [app ws_prefix_len'] in *.
+  assert (P1 : match pad with c :: _ => c <= 32 | [] => True end).
+  { destruct pad as [|c pad]; [exact I|]. cbn [forallb] in Hp. apply andb_true_iff in Hp as [Hc _]. now apply ws1_small. }
+  assert (P2 : match pad with _ :: c :: _ => c <= 32 | _ => True end).
+  { destruct pad as [|c0 [|c pad]]; try exact I. cbn [forallb] in Hp. apply andb_true_iff in Hp as [_ Hp].
+    apply andb_true_iff in Hp as [Hc _]. now apply ws1_small. }
+  destruct (ws1 b); [discriminate|].
+  repeat (case_if; [ destruct r as [|c1 [|c2 r]]; cbn [app]; try exact He;
+                     destruct pad as [|p1 [|p2 pad]]; try reflexivity;
+                     repeat case_if; try reflexivity; exfalso; b2p; lia | ]).
+  reflexivity.
+Qed.
+
+Lemma ws_suffix_len_ws1 b r : ws1 b = true -> ws_suffix_len (b :: r) = 1%nat.
+Proof. unfold ws1. intro H. cbn [ws_suffix_len]. now rewrite H. Qed.
+
+Lemma trim_end_rev_ws1 rp re f : forallb ws1 rp = true -> (length rp <= f)%nat ->
+  trim_end_rev f (rp ++ re) = trim_end_rev (f - length rp) re.
+Proof.
+  revert f. induction rp as [|b rp IH]; intros f Hp Hf; cbn [app length].
+  - now rewrite Nat.sub_0_r.
+  - cbn [forallb] in Hp. apply andb_true_iff in Hp as [Hb Hp]. destruct f as [|f]; [cbn [length] in Hf; lia|].
+    cbn [trim_end_rev]. rewrite (ws_suffix_len_ws1 _ _ Hb). cbn [skipn]. rewrite IH; [|assumption|cbn [length] in Hf; lia].
+    reflexivity.
+Qed.
+
+Lemma forallb_rev {A} (f : A -> bool) l : forallb f (rev l) = forallb f l.
+Proof.
+  induction l as [|x l IH]; [reflexivity|]. cbn [rev forallb]. rewrite forallb_app, IH. cbn [forallb].
+  rewrite andb_true_r. apply andb_comm.
+Qed.
+
+Lemma trim_end_app_ws1 e pad : forallb ws1 pad = true -> trim_end e = e -> trim_end (e ++ pad) = e.
+Proof.
+  intros Hp He. unfold trim_end in *. rewrite rev_app_distr, trim_end_rev_ws1.
+  - rewrite app_length, rev_length. replace (length e + length pad - length pad)%nat with (length e) by lia. exact He.
+  - now rewrite forallb_rev.
+  - rewrite app_length, rev_length. lia.
+Qed.
+
+(* optional single-byte white space (SP, HTAB, ...) around a text that has none at either end *)
+Lemma trim_pad pad e pad' :
+  forallb ws1 pad = true -> forallb ws1 pad' = true -> trim_start e = e -> trim_end e = e ->
+  trim (pad ++ e ++ pad') = e.
+Proof.
+  intros Hp Hp' Hs He. rewrite trim_ws1_app by assumption. destruct e as [|b r].
+  - cbn [app]. rewrite <- (app_nil_r pad'), trim_ws1_app by assumption. reflexivity.
+  - unfold trim. rewrite trim_start_fixed.
+    + now apply trim_end_app_ws1.
+    + apply ws_prefix_len_app_ws1; [discriminate | now apply trim_start_fixed_iff | assumption].
+Qed.
